@@ -237,7 +237,7 @@ func fnoOf(i ast.Index32) int64 {
 
 func runC07(seed uint64, n int, tier string, outDir string) []*Stats {
 	r := NewRng(seed)
-	cf := NewCoqFile("From V Require Import Common.Base C07.Vlq C07.SpecMap C07.Mappings C07.Shift C07.Harness C07.HarnessParse.")
+	cf := NewCoqFile("From V Require Import Common.Base C07.Vlq C07.SpecMap C07.Mappings C07.Shift C07.Harness C07.HarnessParse C07.HarnessJson.")
 	st := NewStats("c07", seed)
 	note := st.Note
 
@@ -586,6 +586,8 @@ func runC07(seed uint64, n int, tier string, outDir string) []*Stats {
 		}
 	}
 	cf.AddCases("map_cases", "bytes * Z * Z * list (list Z)", "check_map", mapItems)
+	smTextProbes(st)
+	cf.AddCases("smtext_cases", "bool * list bytes * option bytes * option (list bytes) * bytes * list bytes * bytes", "check_smtext", smTextItems)
 
 	st.Finish("seeded generator (splitmix64 from VERIF_SEED): VLQ boundary grid + random values; random SourceMapState pairs; chunks produced by the real ChunkBuilder from random token layouts (CR/LF/CRLF/U+2028, astral and 2-byte characters) joined with the linker's bookkeeping; Finalize with shift lists built like substituteFinalPaths; sorted mapping lists for Find; api.Build marker programs for the glue stream. distinct_nontrivial = distinct (family,input) pairs excluding zero/empty inputs")
 	if err := os.WriteFile(filepath.Join(outDir, "c07_cases.v"), []byte(cf.String()), 0o644); err != nil {
@@ -812,6 +814,7 @@ type smJSON struct {
 	Version        int       `json:"version"`
 	Sources        []string  `json:"sources"`
 	SourcesContent []*string `json:"sourcesContent"`
+	SourceRoot     *string   `json:"sourceRoot"`
 	Mappings       string    `json:"mappings"`
 	Names          []string  `json:"names"`
 }
@@ -1023,6 +1026,9 @@ func glueSourceMap(r *Rng, st *Stats) []string {
 	if r.Chance(15) {
 		opts.LineLimit = 40
 	}
+	if r.Chance(25) {
+		opts.SourceRoot = []string{"https://example.com/src", "root \"q\" é", "/abs/"}[r.Intn(3)]
+	}
 	desc["options"] = fmt.Sprintf("bundle=%v splitting=%v sourcemap=%d minify=%v/%v/%v banner=%v charset=%d linelimit=%d entrynames=%q chunknames=%q", bundle, splitting, opts.Sourcemap, opts.MinifyWhitespace, opts.MinifyIdentifiers, opts.MinifySyntax, opts.Banner != nil, opts.Charset, opts.LineLimit, opts.EntryNames, opts.ChunkNames) + libDesc
 	res := api.Build(opts)
 	st.Evaluations++
@@ -1070,6 +1076,7 @@ func glueSourceMap(r *Rng, st *Stats) []string {
 			st.Fail("glue-map-json", desc, string(mapBytes), "version 3 JSON")
 			continue
 		}
+		recordSmText(opts.Charset != api.CharsetUTF8, sm, mapBytes, 6)
 		segs, ok := decodeMappings([]byte(sm.Mappings))
 		if !ok {
 			st.Fail("glue-map-undecodable", desc, sm.Mappings, "decodable")
@@ -1845,4 +1852,114 @@ func genParseMapCase(r *Rng, st *Stats) string {
 	}
 	st.Note("parsemap", doc, sm != nil && len(sm.Mappings) > 1)
 	return fmt.Sprintf("([%s],%d,%d,%d,[%s])", strings.Join(secItems, ";"), kind, ns, nn, strings.Join(mapItems, ";"))
+}
+
+// ---------------------------------------------------------------------------
+// The text of the emitted map (SmJson.v): byte-exact re-rendering of real .map
+// outputs from their decoded fields.
+
+var smTextItems []string
+
+func coqOptBytes(p *string) string {
+	if p == nil {
+		return "None"
+	}
+	return "(Some " + CBytes([]byte(*p)) + ")"
+}
+
+func recordSmText(ascii bool, sm smJSON, mapBytes []byte, limit int, origContents ...string) {
+	if len(smTextItems) >= limit || len(mapBytes) > 3000 {
+		return
+	}
+	var srcs, names, contents []string
+	for _, s := range sm.Sources {
+		srcs = append(srcs, CBytes([]byte(s)))
+	}
+	for _, s := range sm.Names {
+		names = append(names, CBytes([]byte(s)))
+	}
+	cs := "None"
+	if sm.SourcesContent != nil {
+		for i, c := range sm.SourcesContent {
+			if c == nil {
+				return // a null entry (nested map without content): outside the model
+			}
+			text := *c
+			if i < len(origContents) {
+				text = origContents[i] // the file's own bytes (an invalid byte cannot be recovered from the JSON)
+			}
+			contents = append(contents, CBytes([]byte(text)))
+		}
+		cs = "(Some [" + strings.Join(contents, ";") + "])"
+	}
+	smTextItems = append(smTextItems, fmt.Sprintf("(%s,[%s],%s,%s,%s,[%s],%s)", CBool(ascii), strings.Join(srcs, ";"), coqOptBytes(sm.SourceRoot), cs,
+		CBytes([]byte(sm.Mappings)), strings.Join(names, ";"), CBytes(mapBytes)))
+}
+
+// Directed builds whose sources, contents, names and source root need every
+// branch of QuoteForJSON (controls, quotes, backslashes, U+2028, astral
+// characters, U+FEFF, invalid UTF-8 bytes, lone continuation bytes); the
+// property's last clause is evaluated on them: sourcesContent[i] is the file's
+// text (an invalid byte reads back as U+FFFD, which is all JSON can say).
+func smTextProbes(st *Stats) {
+	dir, err := os.MkdirTemp("", "verif-c07-smtext-")
+	if err != nil {
+		panic(err)
+	}
+	defer os.RemoveAll(dir)
+	type probe struct {
+		name, src, root string
+		exclude         bool
+		charset         api.Charset
+		minify          bool
+	}
+	weird := "// \"q\" \\ \t \x01 \x7f é 😀   \uFEFF \x80\xff \xe2\x82 end\nexport let mk1 = \"é😀\", mk2 = `a\\b`;\nconsole.log(mk1, mk2)\n"
+	probes := []probe{
+		{"weird é.js", weird, "", false, api.CharsetDefault, false},
+		{"weird2.js", weird, "https://x/\"r\"\\é", false, api.CharsetUTF8, false},
+		{"w3 \"q\".js", weird, "", true, api.CharsetDefault, true},
+		{"crlf.js", "export function mk1(mk2) {\r\n  return mk2 + 1\r\n}\r\n", "r", false, api.CharsetUTF8, true},
+		{"empty.js", "export {}\n", "", false, api.CharsetDefault, false},
+	}
+	before := len(smTextItems)
+	for _, pr := range probes {
+		if err := os.WriteFile(filepath.Join(dir, pr.name), []byte(pr.src), 0o644); err != nil {
+			panic(err)
+		}
+		opts := api.BuildOptions{AbsWorkingDir: dir, EntryPoints: []string{pr.name}, Outdir: filepath.Join(dir, "out"), Write: false, Bundle: true,
+			Format: api.FormatESModule, Sourcemap: api.SourceMapExternal, SourceRoot: pr.root, Charset: pr.charset, MinifyIdentifiers: pr.minify, LogLevel: api.LogLevelSilent}
+		if pr.exclude {
+			opts.SourcesContent = api.SourcesContentExclude
+		}
+		res := api.Build(opts)
+		input := map[string]interface{}{"scenario": "smtext-probe", "file": pr.name, "source": pr.src}
+		if len(res.Errors) > 0 {
+			st.Fail("smtext-probe-error", input, res.Errors[0].Text, "no error")
+			continue
+		}
+		for _, f := range res.OutputFiles {
+			if !strings.HasSuffix(f.Path, ".map") {
+				continue
+			}
+			var sm smJSON
+			if err := json.Unmarshal(f.Contents, &sm); err != nil || sm.Version != 3 {
+				st.Fail("smtext-not-json", input, string(f.Contents), "a version 3 JSON object")
+				continue
+			}
+			if pr.exclude != (sm.SourcesContent == nil) {
+				st.Fail("smtext-sources-content-presence", input, sm.SourcesContent, pr.exclude)
+			}
+			if !pr.exclude {
+				want := string([]rune(pr.src)) // every invalid byte is one U+FFFD
+				if len(sm.SourcesContent) != len(sm.Sources) || len(sm.Sources) > 1 || (len(sm.Sources) == 1 && (sm.SourcesContent[0] == nil || *sm.SourcesContent[0] != want)) {
+					st.Fail("smtext-sources-content-not-file-text", input, sm.SourcesContent, want)
+				}
+			}
+			if (pr.root == "") != (sm.SourceRoot == nil) || (sm.SourceRoot != nil && *sm.SourceRoot != pr.root) {
+				st.Fail("smtext-source-root", input, sm.SourceRoot, pr.root)
+			}
+			recordSmText(pr.charset != api.CharsetUTF8, sm, f.Contents, before+len(probes)+10, pr.src)
+			st.Note("smtext-probe", pr.name, true)
+		}
+	}
 }
